@@ -65,11 +65,16 @@ fn case_a_json(l: usize, n: usize, head: &[u8], cuts: &[usize], extra: usize) ->
 
 /// Family (a): `extra` body bytes share the read that completes the header block.
 fn exec_payload(ctx: &mut Ctx, l: usize, n: usize, head: &[u8], cuts: &[usize], extra: usize) -> bool {
+    exec_payload_ex(ctx, l, n, head, cuts, extra, 0)
+}
+
+/// `after_errors` rejected requests are fed to the same connection first: the configured limit must persist.
+fn exec_payload_ex(ctx: &mut Ctx, l: usize, n: usize, head: &[u8], cuts: &[usize], extra: usize, after_errors: usize) -> bool {
     if !ctx.begin() {
         return false;
     }
     ctx.rep.evaluations += 1;
-    let mut f = Fp::new().u(l as u64).u(n as u64).bytes(head).u(extra as u64);
+    let mut f = Fp::new().u(l as u64).u(n as u64).bytes(head).u(extra as u64).u(after_errors as u64);
     for c in cuts {
         f = f.u(*c as u64);
     }
@@ -78,9 +83,22 @@ fn exec_payload(ctx: &mut Ctx, l: usize, n: usize, head: &[u8], cuts: &[usize], 
     let body: Vec<u8> = (0..n.min(70_000)).map(|i| (i % 251) as u8).collect();
     let mut r = Runner::new(Some(l));
     let fail = |ctx: &mut Ctx, kind: &str, d: String| {
-        ctx.rep.violation(&format!("C04:{}", kind), format!("L={} n={}: {}", l, n, d), case_a_json(l, n, head, cuts, extra));
+        let mut c = case_a_json(l, n, head, cuts, extra);
+        if let J::Obj(kv) = &mut c {
+            kv.push(("after_errors".to_string(), J::u(after_errors as u64)));
+        }
+        ctx.rep.violation(&format!("C04:{}", kind), format!("L={} n={} (after {} rejected requests on the same connection): {}", l, n, after_errors, d), c);
         true
     };
+    for k in 0..after_errors {
+        let bad: &[u8] = if k % 2 == 0 { b"BAD / HTTP/1.1\r\n\r\n" } else { b"GET / HTTP/1.1\r\nnocolon\r\n\r\n" };
+        let so = r.feed(ReadEv::Data(bad.to_vec(), Vec::new()));
+        if !matches!(so.res, RR::Parse(_)) {
+            return fail(ctx, "fault", format!("the malformed request was not rejected: {:?}", so.res));
+        }
+        r.script.clear_reads();
+        ctx.rep.count("limit_checked_after_a_rejected_request");
+    }
     // header block, cut as requested; the last segment ends exactly at the LF of the blank line
     let mut start = 0usize;
     let mut last = None;
@@ -345,6 +363,8 @@ pub fn run(ctx: &mut Ctx) {
                 }
                 let cuts = gen::random_cuts(&mut rng, h.len(), 4);
                 exec_payload(ctx, l, n, &h, &cuts, 0);
+                // the limit configured on the connection persists across rejected requests
+                exec_payload_ex(ctx, l, n, &h, &[], 0, 1 + variant % 2);
             }
         }
     }
@@ -527,7 +547,7 @@ pub fn replay(ctx: &mut Ctx, case: &J) {
     if case.gs("family") == "payload" {
         let h = case.ghex("head_hex");
         println!("head: {}", show(&h));
-        exec_payload(ctx, case.gu("limit") as usize, case.gu("declared") as usize, &h, &cuts, case.gu("body_bytes_in_last_read") as usize);
+        exec_payload_ex(ctx, case.gu("limit") as usize, case.gu("declared") as usize, &h, &cuts, case.gu("body_bytes_in_last_read") as usize, case.gu("after_errors") as usize);
     } else {
         let s = case.ghex("stream_hex");
         let kind = if case.gs("line_kind") == "request-line" { 0 } else { 1 };
